@@ -116,6 +116,9 @@ def flatten(prog, body, policy=None, depth=4, max_blocks=6000, env0=None, thread
             if _desugar_iter(prog, blocks, origin, meta, locals_, names, lorigin, inlined, i, d, stack, env, max_blocks):
                 i += 1
                 continue
+            if _desugar_comb(prog, blocks, origin, meta, locals_, names, lorigin, inlined, i, d, stack, env, max_blocks):
+                i += 1
+                continue
             # (a synthetic call - the `next` of a desugared adaptor - is resolved by its own terminator)
             osite = Site(ob, origin[i][1], ob.blocks[origin[i][1]]["term"])
             if blk.get("synth"):
@@ -141,8 +144,8 @@ def flatten(prog, body, policy=None, depth=4, max_blocks=6000, env0=None, thread
                     lorigin.extend((tgt.path, j) for j in range(len(tgt.locals)))
                     inlined.add(tgt.path)
         i += 1
-    if inlined:
-        _thread_results(blocks, origin, meta, prog, locals_, thread_calls)
+    # (also when nothing was inlined: a state machine written as a loop over an enum of stages is its chain of arms)
+    _thread_results(blocks, origin, meta, prog, locals_, thread_calls)
     raw = dict(body.raw)
     raw["blocks"] = blocks
     raw["locals"] = locals_
@@ -159,6 +162,49 @@ FROM_RESIDUAL = "std::ops::FromResidual::from_residual"
 # of the same code (`for e in it { .. }`  <->  `it.try_for_each(|e| ..)`, `try_fold`, `for_each`, `fold`).
 ITER_LOOPS = {"std::iter::Iterator::try_fold": "try_fold", "std::iter::Iterator::try_for_each": "try_for_each",
               "std::iter::Iterator::for_each": "for_each", "std::iter::Iterator::fold": "fold"}
+
+
+def thread_view(prog, body):
+    """The body itself with jump threading applied (nothing inlined): a `loop { state = match state { A => .. B, B => ..
+    } }` state machine whose next state is a literal at the end of every arm becomes the straight chain of arms it
+    executes.  None if there is nothing to thread."""
+    cache = prog.__dict__.setdefault("_thread_views", {})
+    if body.path in cache:
+        return cache[body.path]
+    cache[body.path] = None
+    if getattr(body, "is_flat", False) or len(body.blocks) > 1500:
+        return None
+    # worth trying only if the body builds a literal of a crate-local enum and switches on a discriminant
+    enums = set()
+    for blk in body.blocks:
+        for st in blk["stmts"]:
+            if st["k"] == "assign" and st["rv"]["k"] == "agg" and st["rv"].get("ak") == "adt" and \
+                    st["rv"].get("def") in prog.adts and prog.adts[st["rv"]["def"]]["kind"] == "Enum":
+                enums.add(st["rv"]["def"])
+    if not enums:
+        return None
+    has = False
+    for blk in body.blocks:
+        for st in blk["stmts"]:
+            if st["k"] == "assign" and st["rv"]["k"] == "discr":
+                pl = st["rv"]["place"]
+                t = prog.types[prog.strip_refs(body.locals[pl["l"]])] if not pl["p"] else {}
+                if t.get("k") == "adt" and t.get("def") in enums:
+                    has = True
+    if not has:
+        return None
+    blocks = [_ren(blk, 0, 0) for blk in body.blocks]
+    origin = [(body.path, i) for i in range(len(blocks))]
+    meta = [(0, (body.path,), {}) for _ in blocks]
+    n0 = len(blocks)
+    _thread_results(blocks, origin, meta, prog, list(body.locals), True)
+    if len(blocks) == n0:
+        return None
+    raw = dict(body.raw)
+    raw["blocks"] = blocks
+    V = FlatBody(prog, raw, origin, set(), [m[2] for m in meta], [(body.path, j) for j in range(len(body.locals))])
+    cache[body.path] = V
+    return V
 
 
 def _intern_type(prog, desc):
@@ -325,6 +371,217 @@ def _desugar_iter(prog, blocks, origin, meta, locals_, names, lorigin, inlined, 
     # the original block now runs the set-up and enters the loop
     blk["stmts"] = list(blk["stmts"]) + pre
     blk["term"] = {"k": "goto", "t": hdr}
+    return True
+
+
+# Option / Result / bool combinators that run a closure on one of the receiver's variants.  When the closure does real
+# work (calls crate functions that are not leaf getters, or writes through a capture) the call is replaced in a flat
+# view by the `match` it stands for, with the closure inlined into its arm:
+#   `opt.map_or_else(|| d(), |x| f(x))`  ->  `match opt { None => d(), Some(x) => f(x) }`
+# so that `if let`/`match` and the combinator form of the same code look alike to every rule.
+# arm = ("call", index of the closure argument, takes the payload?, variant to wrap the result in or None)
+#     | ("variant", name) | ("bool", value) | ("operand", argument index) | ("payload",) | ("payload_wrap", variant)
+#     | ("fwd",)
+_OPT, _RES = "std::option::Option", "std::result::Result"
+COMBINATORS = {
+    "std::option::Option::map": (_OPT, {0: ("variant", "None"), 1: ("call", 1, True, "Some")}),
+    "std::option::Option::and_then": (_OPT, {0: ("variant", "None"), 1: ("call", 1, True, None)}),
+    "std::option::Option::map_or_else": (_OPT, {0: ("call", 1, False, None), 1: ("call", 2, True, None)}),
+    "std::option::Option::map_or": (_OPT, {0: ("operand", 1), 1: ("call", 2, True, None)}),
+    "std::option::Option::unwrap_or_else": (_OPT, {0: ("call", 1, False, None), 1: ("payload",)}),
+    "std::option::Option::ok_or_else": (_OPT, {0: ("call", 1, False, "Err"), 1: ("payload_wrap", "Ok")}),
+    "std::option::Option::or_else": (_OPT, {0: ("call", 1, False, None), 1: ("fwd",)}),
+    "std::option::Option::is_some_and": (_OPT, {0: ("bool", False), 1: ("call", 1, True, None)}),
+    "std::option::Option::is_none_or": (_OPT, {0: ("bool", True), 1: ("call", 1, True, None)}),
+    "std::result::Result::map": (_RES, {0: ("call", 1, True, "Ok"), 1: ("payload_wrap", "Err")}),
+    "std::result::Result::map_err": (_RES, {0: ("payload_wrap", "Ok"), 1: ("call", 1, True, "Err")}),
+    "std::result::Result::and_then": (_RES, {0: ("call", 1, True, None), 1: ("payload_wrap", "Err")}),
+    "std::result::Result::or_else": (_RES, {0: ("payload_wrap", "Ok"), 1: ("call", 1, True, None)}),
+    "std::result::Result::unwrap_or_else": (_RES, {0: ("payload",), 1: ("call", 1, True, None)}),
+    "std::result::Result::map_or_else": (_RES, {0: ("call", 2, True, None), 1: ("call", 1, True, None)}),
+    "std::result::Result::map_or": (_RES, {0: ("call", 2, True, None), 1: ("operand", 1)}),
+    "std::result::Result::is_ok_and": (_RES, {0: ("call", 1, True, None), 1: ("bool", False)}),
+    "std::result::Result::is_err_and": (_RES, {0: ("bool", False), 1: ("call", 1, True, None)}),
+    "core::bool::then": ("bool", {0: ("variant", "None"), 1: ("call", 1, False, "Some")}),
+    "std::bool::then": ("bool", {0: ("variant", "None"), 1: ("call", 1, False, "Some")}),
+}
+_VARIANT = {"None": (_OPT, 0), "Some": (_OPT, 1), "Ok": (_RES, 0), "Err": (_RES, 1)}
+
+
+def _does_work(prog, tgt, _depth=0):
+    """Does the closure do more than compute a value from its arguments: a call to a crate function that itself calls
+    something, a call of another closure / function parameter, or a write through a captured reference?"""
+    memo = prog.__dict__.setdefault("_does_work", {})
+    if tgt.path in memo:
+        return memo[tgt.path]
+    memo[tgt.path] = False
+    res = False
+    for bb, blk in enumerate(tgt.blocks):
+        if blk.get("cleanup"):
+            continue
+        t = blk["term"]
+        if t["k"] == "call":
+            c = t.get("callee") or {}
+            if c.get("_np") in FN_TRAIT_CALLS or (c.get("path") or "").startswith("std::ops::Fn"):
+                res = True
+                break
+            t2 = prog.local_target(Site(tgt, bb, t))
+            if t2 is not None and any(b2["term"]["k"] == "call" and not b2.get("cleanup") for b2 in t2.blocks):
+                res = True
+                break
+            cd = None
+            for a in t["args"]:
+                pl = a.get("move") or a.get("copy")
+                if pl is not None and not pl["p"]:
+                    cd = prog.closure_def_of_type(tgt.locals[pl["l"]])
+                    if cd and cd in prog.bodies and _depth < 2 and _does_work(prog, prog.bodies[cd], _depth + 1):
+                        res = True
+            if res:
+                break
+        for st in blk["stmts"]:
+            if st["k"] == "assign" and st["lhs"]["l"] == 1 and any(e == "deref" for e in st["lhs"]["p"]):
+                res = True
+    memo[tgt.path] = res
+    return res
+
+
+def _desugar_comb(prog, blocks, origin, meta, locals_, names, lorigin, inlined, i, d, stack, env, max_blocks):
+    blk = blocks[i]
+    t = blk["term"]
+    c = t.get("callee") or {}
+    spec = COMBINATORS.get(c.get("_np") or "")
+    if spec is None:
+        from .effects import norm
+        spec = COMBINATORS.get(norm(c.get("path") or ""))
+    if spec is None or c.get("local") or t.get("t") is None or t["dest"]["p"]:
+        return False
+    rdef, arms = spec
+    args = t["args"]
+    rpl = args[0].get("move") or args[0].get("copy") if args else None
+    if rpl is None or rpl["p"]:
+        return False
+    rty = prog.types[locals_[rpl["l"]]]
+    if rdef == "bool":
+        if rty.get("s") != "bool":
+            return False
+    elif not (rty.get("k") == "adt" and rty.get("def") == rdef):
+        return False
+    # the closures
+    clos = {}
+    for v, arm in arms.items():
+        if arm[0] != "call":
+            continue
+        if arm[1] >= len(args):
+            return False
+        cpl = args[arm[1]].get("move") or args[arm[1]].get("copy")
+        if cpl is None or cpl["p"]:
+            return False
+        cd = prog.closure_def_of_type(locals_[cpl["l"]])
+        tgt = prog.bodies.get(cd) if cd else None
+        if tgt is None or tgt.path in stack or tgt.argc != (2 if arm[2] else 1):
+            return False
+        clos[v] = (cpl["l"], tgt)
+    if not clos or not any(_does_work(prog, tg) for (_l, tg) in clos.values()):
+        return False
+    if sum(len(tg.blocks) for (_l, tg) in clos.values()) + len(blocks) + 12 > max_blocks:
+        return False
+    span = blk["span"]
+    line = span.get("line", 0)
+    okey = origin[i]
+    cont = t["t"]
+    dest = t["dest"]
+    targs = [a for a in rty.get("args", []) if isinstance(a, int)]
+
+    def new_local(ty):
+        locals_.append(ty)
+        lorigin.append((okey[0], -1))
+        return len(locals_) - 1
+
+    def asg(lhs, rv):
+        return {"k": "assign", "lhs": lhs if isinstance(lhs, dict) else {"l": lhs, "p": []}, "rv": rv, "line": line,
+                "exp": False, "expk": None}
+
+    def use(op):
+        return {"k": "use", "op": op}
+
+    def add_block(stmts, term, m, synth=True):
+        blocks.append({"cleanup": False, "stmts": stmts, "term": term, "span": span, "synth": synth})
+        origin.append(okey)
+        meta.append(m)
+        return len(blocks) - 1
+
+    def payload(v, ty):
+        if rdef == "bool":
+            return None
+        vn = {(_OPT, 0): "None", (_OPT, 1): "Some", (_RES, 0): "Ok", (_RES, 1): "Err"}[(rdef, v)]
+        return {"move": {"l": rpl["l"], "p": [{"dc": v, "vn": vn}, {"f": 0, "n": "0", "adt": rdef, "vn": vn, "ty": ty}]}}
+
+    def wrap(vn, op):
+        wdef, wv = _VARIANT[vn]
+        return {"k": "agg", "ak": "adt", "def": wdef, "variant": wv, "vn": vn, "fields": ["0"] if op is not None else [],
+                "ops": [op] if op is not None else []}
+    m0 = (d, stack, dict(env))
+    unreachable = add_block([], {"k": "unreachable"}, m0)
+    entries = {}
+    for v in (0, 1):
+        arm = arms[v]
+        kind = arm[0]
+        if kind == "call":
+            cl, tgt = clos[v]
+            m = (d + 1, stack + (tgt.path,), dict(env))
+            loff = len(locals_)
+            locals_.extend(tgt.locals)
+            lorigin.extend((tgt.path, j) for j in range(len(tgt.locals)))
+            for n in tgt.raw.get("names", []):
+                names.append({"name": n["name"], "place": _ren(n["place"], loff, 0)})
+            setup = []
+            cref_ty = tgt.locals[1]
+            if prog.types[cref_ty].get("k") == "ref":
+                setup.append(asg(loff + 1, {"k": "ref", "mut": bool(prog.types[cref_ty].get("mut")),
+                                            "place": {"l": cl, "p": []}}))
+            else:
+                setup.append(asg(loff + 1, use({"move": {"l": cl, "p": []}})))
+            if arm[2]:
+                setup.append(asg(loff + 2, use(payload(v, tgt.locals[2]))))
+            boff = len(blocks) + 1
+            entries[v] = add_block(setup, {"k": "goto", "t": boff}, m, synth=False)
+            after = boff + len(tgt.blocks)
+            for j, cb in enumerate(tgt.blocks):
+                nb = _ren(cb, loff, boff)
+                if nb["term"]["k"] == "return" and not nb.get("cleanup"):
+                    nb["term"] = {"k": "goto", "t": after}
+                blocks.append(nb)
+                origin.append((tgt.path, j))
+                meta.append(m)
+            inlined.add(tgt.path)
+            ret = {"move": {"l": loff, "p": []}}
+            a_blk = add_block([asg(dest, wrap(arm[3], ret) if arm[3] else use(ret))], {"k": "goto", "t": cont}, m0)
+            assert a_blk == after
+        else:
+            if kind == "variant":
+                rv = wrap(arm[1], None)
+            elif kind == "bool":
+                bty = _intern_type(prog, {"k": "prim", "s": "bool"})
+                rv = use({"const": {"ty": bty, "v": bool(arm[1])}})
+            elif kind == "operand":
+                rv = use(args[arm[1]])
+            elif kind == "payload":
+                rv = use(payload(v, targs[v] if rdef == _RES and len(targs) > v else (targs[0] if targs else locals_[dest["l"]])))
+            elif kind == "payload_wrap":
+                pty = targs[v] if rdef == _RES and len(targs) > v else (targs[0] if targs else locals_[dest["l"]])
+                rv = wrap(arm[1], payload(v, pty))
+            else:       # fwd
+                rv = use({"move": {"l": rpl["l"], "p": []}})
+            entries[v] = add_block([asg(dest, rv)], {"k": "goto", "t": cont}, m0)
+    if rdef == "bool":
+        blk["term"] = {"k": "switch", "discr": args[0], "dty": locals_[rpl["l"]],
+                       "targets": [[0, entries[0]]], "otherwise": entries[1]}
+    else:
+        isz = _intern_type(prog, {"k": "prim", "s": "isize"})
+        dsc = new_local(isz)
+        blk["stmts"] = list(blk["stmts"]) + [asg(dsc, {"k": "discr", "place": {"l": rpl["l"], "p": []}})]
+        blk["term"] = {"k": "switch", "discr": {"move": {"l": dsc, "p": []}}, "dty": isz,
+                       "targets": [[0, entries[0]], [1, entries[1]]], "otherwise": unreachable}
     return True
 
 
